@@ -642,6 +642,9 @@ def _clone_case(draw, cplx, reps):
     else:
         c["counts"] = draw(gen.dyadic_probs(k, m=6, allow_zero=False))
     c["urot"] = fam == "random" and draw(st.booleans())
+    # native dtypes: real kets stored as float arrays next to complex ones, no common rotation (seeded change C09-t3
+    # decides from the first state's dtype whether to conjugate; every generated ensemble had a single dtype)
+    c["native"] = cplx and fam in ("sixstate", "random") and draw(st.booleans())
     return c
 
 
@@ -650,8 +653,13 @@ def _clone_states(c):
     u = gen.rand_unitary(c["useed"], 2, real=real)
     fam = c["fam"]
     s2 = 1 / np.sqrt(2)
+    native = bool(c.get("native"))
+    if native:
+        u = np.eye(2)
     if fam == "random":
-        base = [gen.rand_ket(s, 2, real=real) for s in c["seeds"]]
+        base = [gen.rand_ket(s, 2, real=real or (native and i == 0)) for i, s in enumerate(c["seeds"])]
+        if native:
+            base[0] = np.real(base[0])
         kets = base
     elif fam == "single":
         kets = [u @ np.array([1.0, 0.0])]
@@ -662,6 +670,8 @@ def _clone_states(c):
     else:
         kets = [u @ np.array(v) for v in ([1.0, 0.0], [0.0, 1.0], [s2, s2], [s2, -s2], [s2, 1j * s2], [s2, -1j * s2])]
     kets = [np.asarray(k).reshape(2, 1) for k in kets]
+    if native:
+        kets = [np.real(k) if not np.any(np.imag(k)) else k for k in kets]
     if c["counts"] is None:
         probs = [1 / c["k"]] * c["k"]
     else:
